@@ -531,17 +531,19 @@ def write_evidence(pid, level, coverage, assumptions, wall, violations, tier=Non
     ev = {"property_id": pid, "tier": tier or TIER, "seed": SEED, "level": level,
           "coverage": coverage, "assumptions": assumptions, "wall_s": round(wall, 2),
           "violations": violations}
-    os.makedirs(os.path.join(VERIF, "evidence"), exist_ok=True)
-    with open(os.path.join(VERIF, "evidence", pid + ".json"), "w") as f:
+    out = os.environ.get("VERIF_OUT", VERIF)          # seeded-change runs write elsewhere
+    os.makedirs(os.path.join(out, "evidence"), exist_ok=True)
+    with open(os.path.join(out, "evidence", pid + ".json"), "w") as f:
         json.dump(ev, f, indent=1, sort_keys=True)
     return ev
 
 
 def save_replay(pid, payload):
-    os.makedirs(os.path.join(VERIF, "replays"), exist_ok=True)
+    out = os.environ.get("VERIF_OUT", VERIF)
+    os.makedirs(os.path.join(out, "replays"), exist_ok=True)
     blob = json.dumps(payload, sort_keys=True, indent=1)
     dig = hashlib.sha256(blob.encode()).hexdigest()[:12]
     path = os.path.join("replays", "%s-%s.json" % (pid, dig))
-    with open(os.path.join(VERIF, path), "w") as f:
+    with open(os.path.join(out, path), "w") as f:
         f.write(blob)
     return path
